@@ -13,9 +13,10 @@ let parse_hdrs (t : string) : (char list * char list) list =
 
 let body_of (len : string) (dg : string) : bodytok = { blen = n_of_dec len; bdig = n_of_dec dg }
 
-let parse_exchange (t : string) : exchange =
+let rec parse_exchange (t : string) : exchange =
   match String.split_on_char ':' t with
-  | ["X"; m; form; pq; v10; hd; rb; rqf; st; sv10; shd; sb; rsf] ->
+  | ["X"; _; _; _; _; _; _; _; _; _; _; _; _] -> parse_exchange (t ^ ":a")
+  | ["X"; m; form; pq; v10; hd; rb; rqf; st; sv10; shd; sb; rsf; rdf] ->
       let rb' = match String.split_on_char '.' rb with
         | [l; _; d] -> body_of l d | _ -> failwith "bad req body" in
       let sb0 = if String.length sb > 0 && sb.[0] = 'z' then String.sub sb 1 (String.length sb - 1) else sb in
@@ -27,7 +28,9 @@ let parse_exchange (t : string) : exchange =
                  rframing = (match rqf.[0] with 'c' -> RqCL | 'k' -> RqChunked | _ -> RqNone) } in
       let rs = { status = n_of_dec st; s_http10 = (sv10 = "1"); shdrs = parse_hdrs shd; sbody = sb';
                  sframing = (match rsf.[0] with 'c' -> FCL | 'k' -> FChunked | 'x' -> FCloseDelimited | _ -> FBodiless) } in
-      { rq = rq; rs = rs }
+      let rd = if rdf = "a" || rdf = "" then ReadAll
+        else ReadSome (n_of_dec (String.sub rdf 1 (String.length rdf - 1))) in
+      { rq = rq; rs = rs; rd = rd }
   | _ -> failwith ("bad exchange token " ^ (if String.length t > 40 then String.sub t 0 40 else t))
 
 type pobs = { obs : conn_obs; fin : string; oerr : string list; special : string option }
@@ -113,12 +116,13 @@ let judge _name ins outs =
          let sv = served es in
          let nontrivial = List.length sv >= 2 in
          if not (c01_req_ok es o) then begin
-           match first_bad req_preserved_b (List.map (fun e -> e.rq) sv) o.origin_saw 0 with
-           | Some (i, Some (r, w)) ->
+           match first_bad req_preserved_e sv o.origin_saw 0 with
+           | Some (i, Some (e, w)) ->
+               let r = e.rq in
                let what =
                  if not (str_eqb w.w_meth r.meth) then "method got=" ^ str w.w_meth
                  else if not (str_eqb w.w_uri (norm_pq r.path_query)) then "target want=" ^ str (norm_pq r.path_query) ^ " got=" ^ str w.w_uri
-                 else if not (body_eqb w.w_body r.rbody) then
+                 else if e.rd = ReadAll && not (body_eqb w.w_body r.rbody) then
                    Printf.sprintf "body want-len=%s got-len=%s" (dec_of_n r.rbody.blen) (dec_of_n w.w_body.blen)
                  else "headers " ^ bad_req_header r w in
                VPropfail ("request_preserved", Printf.sprintf "exchange=%d %s" i what)
@@ -140,7 +144,8 @@ let judge _name ins outs =
            else begin
              (* name the first differing projection *)
              let d =
-               match first_bad (fun (e, a) b -> wreq_equiv (nominated e.rq.rhdrs) a b)
+               match first_bad (fun (e, a) b -> wreq_equiv (nominated e.rq.rhdrs) a
+                                   (match e.rd with ReadAll -> b | _ -> with_body b a.w_body))
                        (List.combine (List.filteri (fun i _ -> i < List.length m.origin_saw) es) m.origin_saw) o.origin_saw 0 with
                | Some (i, _) -> Printf.sprintf "request-as-seen-by-origin exchange=%d" i
                | None ->
